@@ -339,7 +339,7 @@ impl Hist for C18 {
 }
 
 fn configs(tier: Tier) -> Vec<(C18, usize)> {
-    let d = if tier == Tier::Quick { 2 } else { 4 };
+    let d = if tier == Tier::Quick { 3 } else { 4 };
     let d2 = if tier == Tier::Quick { 2 } else { 3 };
     vec![(C18 { multi: false, root: 0 }, d + 1), (C18 { multi: true, root: 0 }, d), (C18 { multi: true, root: 1 }, d2), (C18 { multi: true, root: 2 }, d2), (C18 { multi: true, root: 3 }, d2)]
 }
@@ -447,7 +447,7 @@ pub fn run(tier: Tier, shard: Shard, stats: &mut Stats) {
 }
 
 pub fn meta(tier: Tier) -> Meta {
-    let d = if tier == Tier::Quick { 2 } else { 4 };
+    let d = if tier == Tier::Quick { 3 } else { 4 };
     let d2 = if tier == Tier::Quick { 2 } else { 3 };
     Meta {
         level: "fault_enumeration",
